@@ -43,6 +43,10 @@ type VMCase struct {
 	Extra      []VMAccount // further accounts of the pre-state (contracts the program may call)
 	UsesExt    bool
 	Heavy      bool // may legitimately exceed the watchdog (EXP with huge operands, giant allocation)
+	Nonce      []byte   // engine.Options.Nonce: at chain level x/cvm passes the little-endian account sequence number of the sender
+	Prior      bool     // before the recorded execution, the same call is made once by ANOTHER sender (with PriorNonce) and committed
+	PriorNonce []byte
+	CalleeMeta [][]byte // contract metadata of the callee: the code hashes of the contracts it may create (empty: any)
 	Expect     string // JSON object: facts that must hold of the result by construction of the program (profile "create")
 }
 
@@ -52,6 +56,7 @@ type VMAccount struct {
 	Code    []byte
 	Balance uint64
 	Storage [][2]binary.Word256
+	Meta    [][]byte // acm.Account.ContractMeta: permitted code hashes of created contracts
 }
 
 type VMLog struct {
@@ -68,6 +73,9 @@ type VMResult struct {
 	Logs    []VMLog
 	Post    string // JSON array of every account after the call
 	Detail  string
+	PreDump string      // JSON array of every account before the recorded execution, when it is not the generated pre-state (Prior)
+	PriorOutcome string
+	Fresh   [][3]string // (creator, sequence number, address): the CREATE addresses the interpreter derived (sha256 based)
 }
 
 // ---- the chain's storage convention on top of Burrow's MemoryState ----------
@@ -79,7 +87,9 @@ type vmState struct{ *acmstate.MemoryState }
 func (s vmState) GetStorage(a crypto.Address, k binary.Word256) ([]byte, error) {
 	v, err := s.MemoryState.GetStorage(a, k)
 	if err != nil {
-		return nil, err
+		// Burrow's MemoryState refuses to read the storage of an account it does not hold (the account a CREATE is
+		// constructing exists in the interpreter's cache only); the keeper's store answers 32 zero bytes for any absent slot
+		return binary.Zero256.Bytes(), nil
 	}
 	if v == nil {
 		return binary.Zero256.Bytes(), nil
@@ -126,9 +136,17 @@ func (b *vmChain) BlockHash(h uint64) ([]byte, error) {
 }
 
 // ---- event sink: records LOGs in emission order --------------------------------
-type vmSink struct{ logs []VMLog }
+type vmSink struct {
+	logs  []VMLog
+	calls [][2]crypto.Address // (caller, callee) of every frame opened by engine.Call, in order of completion
+}
 
-func (s *vmSink) Call(*exec.CallEvent, *errors.Exception) error { return nil }
+func (s *vmSink) Call(ev *exec.CallEvent, _ *errors.Exception) error {
+	if ev != nil && ev.CallData != nil && len(s.calls) < 1<<16 {
+		s.calls = append(s.calls, [2]crypto.Address{ev.CallData.Caller, ev.CallData.Callee})
+	}
+	return nil
+}
 func (s *vmSink) Print(*exec.PrintEvent) error                  { return nil }
 func (s *vmSink) Log(l *exec.LogEvent) error {
 	v := VMLog{Addr: hex.EncodeToString(l.Address.Bytes()), Data: hex.EncodeToString(l.Data)}
@@ -143,6 +161,7 @@ var vmNatives = native.MustDefaultNatives()
 
 var VMCaller = engine.AddressFromName("verif-caller")
 var VMCallee = engine.AddressFromName("verif-callee")
+var VMCaller2 = engine.AddressFromName("verif-caller-2") // the other sender of a Prior execution
 
 func vmOutcome(err error) string {
 	if err == nil {
@@ -186,7 +205,11 @@ func dumpWorld(st vmState) string {
 		}
 		acc := st.MemoryState.Accounts[a]
 		b.WriteString(`{"addr":"` + hex.EncodeToString(a.Bytes()) + `","code":"` + hex.EncodeToString(acc.EVMCode) +
-			`","balance":` + strconv.FormatUint(acc.Balance, 10) + `,"storage":`)
+			`","balance":` + strconv.FormatUint(acc.Balance, 10))
+		if acc.Forebear != nil {
+			b.WriteString(`,"forebear":"` + hex.EncodeToString(acc.Forebear.Bytes()) + `"`)
+		}
+		b.WriteString(`,"storage":`)
 		jsonStorage(&b, readStorage(st, a))
 		b.WriteByte('}')
 	}
@@ -194,9 +217,36 @@ func dumpWorld(st vmState) string {
 	return b.String()
 }
 
-func preAccountJSON(b *strings.Builder, addr crypto.Address, code []byte, bal uint64, storage [][2]binary.Word256) {
+func setMeta(st vmState, addr crypto.Address, meta [][]byte) error {
+	if len(meta) == 0 {
+		return nil
+	}
+	return engine.UpdateAccount(st, addr, func(a *acm.Account) error {
+		for _, h := range meta {
+			a.ContractMeta = append(a.ContractMeta, &acm.ContractMeta{CodeHash: h})
+		}
+		return nil
+	})
+}
+
+func preAccountJSON(b *strings.Builder, addr crypto.Address, code []byte, bal uint64, storage [][2]binary.Word256, inited bool, meta ...[]byte) {
 	b.WriteString(`{"addr":"` + hex.EncodeToString(addr.Bytes()) + `","code":"` + hex.EncodeToString(code) +
-		`","balance":` + strconv.FormatUint(bal, 10) + `,"storage":`)
+		`","balance":` + strconv.FormatUint(bal, 10))
+	if inited {
+		// engine.InitEVMCode (no parent) records the account as its own forebear
+		b.WriteString(`,"forebear":"` + hex.EncodeToString(addr.Bytes()) + `"`)
+	}
+	if len(meta) > 0 {
+		b.WriteString(`,"allowed":[`)
+		for i, h := range meta {
+			if i > 0 {
+				b.WriteByte(',')
+			}
+			b.WriteString(`"` + hex.EncodeToString(h) + `"`)
+		}
+		b.WriteString(`]`)
+	}
+	b.WriteString(`,"storage":`)
 	var kv [][2]string
 	for _, e := range storage {
 		if e[1] == binary.Zero256 {
@@ -228,6 +278,7 @@ func RunVMCase(c *VMCase) (res VMResult) {
 	for _, kv := range c.PreStorage {
 		must(st.SetStorage(VMCallee, kv[0], kv[1].Bytes()))
 	}
+	must(setMeta(st, VMCallee, c.CalleeMeta))
 	for _, x := range c.Extra {
 		must(engine.CreateAccount(st, x.Addr))
 		if len(x.Code) > 0 {
@@ -240,6 +291,7 @@ func RunVMCase(c *VMCase) (res VMResult) {
 		for _, kv := range x.Storage {
 			must(st.SetStorage(x.Addr, kv[0], kv[1].Bytes()))
 		}
+		must(setMeta(st, x.Addr, x.Meta))
 	}
 	sink := &vmSink{}
 	gas := big.NewInt(c.Gas)
@@ -253,6 +305,7 @@ func RunVMCase(c *VMCase) (res VMResult) {
 	}
 	bc := &vmChain{height: c.Height, t: time.Unix(c.Time, 0), chainid: c.ChainID}
 	finish := func() {
+		res.Fresh = freshTable(c, sink.calls)
 		res.GasLeft = gas.String()
 		res.Storage = readStorage(st, VMCallee)
 		res.Logs = sink.logs
@@ -266,7 +319,19 @@ func RunVMCase(c *VMCase) (res VMResult) {
 			finish()
 		}
 	}()
-	cvm := vm.NewCVM(engine.Options{Natives: vmNatives})
+	if c.Prior {
+		// another sender makes the same call first, in a transaction of its own (its own CVM, as x/cvm/keeper.Tx builds one)
+		must(engine.CreateAccount(st, VMCaller2))
+		must(engine.UpdateAccount(st, VMCaller2, func(a *acm.Account) error { return a.AddToBalance(c.CallerBal) }))
+		p2 := params
+		p2.Origin, p2.Caller = VMCaller2, VMCaller2
+		p2.Gas = big.NewInt(c.Gas)
+		p2.Value = *big.NewInt(c.Value)
+		_, perr := vm.NewCVM(engine.Options{Natives: vmNatives, Nonce: c.PriorNonce}).Execute(st, bc, &vmSink{}, p2, c.Code)
+		res.PriorOutcome = vmOutcome(perr)
+		res.PreDump = dumpWorld(st)
+	}
+	cvm := vm.NewCVM(engine.Options{Natives: vmNatives, Nonce: c.Nonce})
 	out, err := cvm.Execute(st, bc, sink, params, c.Code)
 	res.Outcome = vmOutcome(err)
 	if err != nil {
@@ -275,6 +340,38 @@ func RunVMCase(c *VMCase) (res VMResult) {
 	res.Ret = out
 	finish()
 	return res
+}
+
+// freshTable reconstructs which CREATE addresses the interpreter derived.  The derivation (crypto.NewContractAddress:
+// SHA-256 of creator, transaction nonce and the CVM's sequence counter) is not available to the Lean model, which takes
+// it as an input: a table (creator, sequence number) -> address.  Every frame the interpreter opens through engine.Call
+// fires a call event carrying caller and callee; a constructor frame is one whose callee is DerivedAddress(caller, k)
+// for some k.  k ranges up to the number of frames plus a margin (a CREATE refused for lack of permission advances the
+// counter without opening a frame).
+func freshTable(c *VMCase, calls [][2]crypto.Address) [][3]string {
+	pre := map[crypto.Address]bool{VMCaller: true, VMCallee: true}
+	for _, x := range c.Extra {
+		pre[x.Addr] = true
+	}
+	seen := map[[2]crypto.Address]bool{}
+	var out [][3]string
+	maxSeq := uint64(len(calls))
+	if maxSeq > 2048 {
+		maxSeq = 2048
+	}
+	maxSeq += 64
+	for _, p := range calls {
+		if seen[p] || pre[p[1]] {
+			continue
+		}
+		seen[p] = true
+		for k := uint64(1); k <= maxSeq; k++ {
+			if DerivedAddressN(p[0], c.Nonce, k) == p[1] {
+				out = append(out, [3]string{hex.EncodeToString(p[0].Bytes()), strconv.FormatUint(k, 10), hex.EncodeToString(p[1].Bytes())})
+			}
+		}
+	}
+	return out
 }
 
 // EthChainID is the number CHAINID pushes for the stub's chain id string.
@@ -325,19 +422,32 @@ func VMLine(c *VMCase, r *VMResult) string {
 	}
 	sort.Slice(pre, func(i, j int) bool { return pre[i][0] < pre[j][0] })
 	jsonStorage(&b, pre)
+	if r.PreDump != "" {
+		b.WriteString(`,"prior":{"outcome":"` + r.PriorOutcome + `","same_nonce":` + strconv.FormatBool(string(c.Nonce) == string(c.PriorNonce)) + `},"pre":` + r.PreDump)
+	} else {
+		vmLinePre(&b, c)
+	}
+	vmLineRes(&b, c, r)
+	return b.String()
+}
+
+func vmLinePre(b *strings.Builder, c *VMCase) {
 	b.WriteString(`,"pre":[`)
-	preAccountJSON(&b, acm.GlobalPermissionsAddress, nil, 0, nil) // exists in every Burrow MemoryState
+	preAccountJSON(b, acm.GlobalPermissionsAddress, nil, 0, nil, false) // exists in every Burrow MemoryState
 	b.WriteByte(',')
-	preAccountJSON(&b, VMCaller, nil, c.CallerBal, nil)
+	preAccountJSON(b, VMCaller, nil, c.CallerBal, nil, false)
 	b.WriteByte(',')
-	preAccountJSON(&b, VMCallee, c.Code, c.CalleeBal, c.PreStorage)
+	preAccountJSON(b, VMCallee, c.Code, c.CalleeBal, c.PreStorage, true, c.CalleeMeta...)
 	for _, x := range c.Extra {
 		b.WriteByte(',')
-		preAccountJSON(&b, x.Addr, x.Code, x.Balance, x.Storage)
+		preAccountJSON(b, x.Addr, x.Code, x.Balance, x.Storage, len(x.Code) > 0, x.Meta...)
 	}
 	b.WriteString(`]`)
+}
+
+func vmLineRes(b *strings.Builder, c *VMCase, r *VMResult) {
 	b.WriteString(`,"res":{"outcome":"` + r.Outcome + `","ret":"` + hex.EncodeToString(r.Ret) + `","gasLeft":` + r.GasLeft + `,"storage":`)
-	jsonStorage(&b, r.Storage)
+	jsonStorage(b, r.Storage)
 	b.WriteString(`,"logs":[`)
 	for i, l := range r.Logs {
 		if i > 0 {
@@ -359,6 +469,15 @@ func VMLine(c *VMCase, r *VMResult) string {
 	if r.Detail != "" {
 		b.WriteString(`,"detail":` + strconv.Quote(r.Detail))
 	}
+	if len(r.Fresh) > 0 {
+		b.WriteString(`,"fresh":[`)
+		for i, e := range r.Fresh {
+			if i > 0 {
+				b.WriteByte(',')
+			}
+			b.WriteString(`["` + e[0] + `",` + e[1] + `,"` + e[2] + `"]`)
+		}
+		b.WriteString(`]`)
+	}
 	b.WriteString("}}\n")
-	return b.String()
 }
